@@ -509,12 +509,16 @@ func TestVerifC13Metric(t *testing.T) {
 	out := vOpen(t)
 	defer out.Close()
 	if tags, seeds, replay := c13ReplayCases("metrics"); replay {
+		if c13TmplReplay() {
+			c13TmplLines(out)
+		}
 		for i := range tags {
 			c13RunMetrics(out, tags[i], seeds[i])
 		}
 		return
 	}
 	seed, n := vSeed(), vN(3000)
+	c13TmplLines(out)
 	c13RunMetrics(out, "wit-f17", 0)
 	for i := 0; i < n; i++ {
 		tag := "mix"
